@@ -25,6 +25,20 @@ def expr_cases(items, tag_of=None, starstar=False):
     return cases
 
 
+def flat_value(vals, ops):
+    """Value of v0 o1 v1 o2 v2 … with `*` binding tighter than `+` and `-`, left to right
+    (Python's own `eval` cannot compile expressions of thousands of operands)."""
+    total, sign, term = 0, 1, vals[0]
+    for o, v_ in zip(ops, vals[1:]):
+        if o == "*":
+            term *= v_
+        else:
+            total += sign * term
+            sign = 1 if o == "+" else -1
+            term = v_
+    return total + sign * term
+
+
 class ExprProp(Prop):
     def observable(self, line):
         # values and units are compared exactly; for errors only "is an error"
@@ -128,9 +142,11 @@ class C06(ExprProp):
         lengths = (list(range(50, 420, 9)) + [257, 513, 1025]) if tier == "quick" else (list(range(2, 600, 2)) + [1025, 2049, 4097])
         for n_ in lengths:
             text = plain = ""
+            vals, used = [], []
             for i in range(n_):
                 if i:
                     op = rng.choice("+-*")
+                    used.append(op)
                     b1, b2 = rng.choice(BL), rng.choice(BL)
                     if op == "*" and rng.chance(1, 2):
                         b1 = b2 = ""
@@ -141,11 +157,13 @@ class C06(ExprProp):
                     b3 = rng.choice(BL)
                     text += f"({a}{b3}{o2}{b3}{b})"
                     plain += f"({a} {o2} {b})"
+                    vals.append(a + b if o2 == "+" else a - b if o2 == "-" else a * b)
                 else:
-                    v_ = str(rng.range(1, 9))
-                    text += v_
-                    plain += v_
-            cases.append(Case("query " + C.hexs(text), "long-chain", plain[:50] + f"… ({n_} operands)", expect=f"{eval(plain)}/1"))
+                    v_ = rng.range(1, 9)
+                    text += str(v_)
+                    plain += str(v_)
+                    vals.append(v_)
+            cases.append(Case("query " + C.hexs(text), "long-chain", plain[:50] + f"… ({n_} operands)", expect=f"{flat_value(vals, used)}/1"))
         return cases
 
 
@@ -248,10 +266,13 @@ class C01(ExprProp):
             for ops in ("+", "+-*"):
                 vals = [str(rng.range(1, 9)) for _ in range(n_)]
                 text = vals[0]
+                used = []
                 for v_ in vals[1:]:
                     op = rng.choice(ops)
+                    used.append(op)
                     text += (" " + op + " " if op in "+-" or rng.chance(1, 2) else op) + v_
-                cases.append(Case("query " + C.hexs(text), "long-chain", text[:60] + f"… ({n_} operands)", expect=f"{eval(text)}/1"))
+                want = flat_value([int(x) for x in vals], used)
+                cases.append(Case("query " + C.hexs(text), "long-chain", text[:60] + f"… ({n_} operands)", expect=f"{want}/1"))
         return cases
 
 
@@ -286,6 +307,20 @@ class C10(ExprProp):
         for x in grid:
             for f in ("floor", "ceil", "round"):
                 items.append((Call(f, [L(x)]), [], "grid-1"))
+        # around the ends of machine words (a shortcut through i32 / i64 / i128 / f64 goes wrong only
+        # within one unit of ±2^31, ±2^63, ±2^127, 2^53 …)
+        for k in (7, 8, 15, 16, 24, 31, 32, 52, 53, 63, 64, 65, 127, 128, 129):
+            for base in (2 ** k, -(2 ** k)):
+                for d in (-2, -1, 0, 1):
+                    for frac in ("", ".5", ".25", ".75", ".0000000001", ".9999999999"):
+                        x = base + d
+                        lit = (f"{x}{frac}" if x >= 0 else f"-{abs(x)}{frac}")
+                        for f in ("floor", "ceil", "round"):
+                            items.append((Call(f, [L(lit)]), [], "word-edges"))
+                        if frac in (".5", ".25"):
+                            items.append((Call("round", [L(lit), L("1")]), [], "word-edges"))
+                            items.append((Call("floor", [G.mk_bin("/", L(str(2 * x + 1)), L("2"))]), [], "word-edges"))
+                            items.append((Call("ceil", [G.mk_bin("/", L(str(2 * x + 1)), L("2"))]), [], "word-edges"))
         digits = list(range(-6, 7))
         vals = ["1234567.891234567", "-1234567.891234567", "0.5", "-0.5", "2.5", "-2.5", "15", "-15", "1250", "0.000125",
                 "-0.000125", "999999.9999995", "0.05", "-0.05", "149.999999", "150"]
